@@ -331,6 +331,10 @@ impl Env {
             .env("GIT_COMMITTER_EMAIL", "verif@example.invalid")
             .env("GIT_AUTHOR_DATE", "2024-01-01T00:00:00Z")
             .env("GIT_COMMITTER_DATE", "2024-01-01T00:00:00Z")
+            // monorail sizes its tokio and rayon pools by the core count; 16 workers x 32+
+            // threads each only adds scheduler noise, so default to a small machine
+            .env("TOKIO_WORKER_THREADS", "4")
+            .env("RAYON_NUM_THREADS", "2")
             .env("MRV_HELPER", helper_bin())
             .env("MRV_PLAN", &self.plan_path)
             .env("MRV_TRACE", &self.trace);
@@ -778,4 +782,121 @@ pub fn commit_all_and_checkpoint(env: &mut Env) -> Result<(), String> {
         return Err(format!("checkpoint update failed: {}", o.stderr_str()));
     }
     Ok(())
+}
+
+/// Create the given repo-relative paths as new files, skipping those that cannot
+/// exist together with what is already there (a directory of that name, a parent
+/// that is a file). Returns the paths actually created.
+pub fn create_files(env: &Env, paths: &[String], ascii_only: bool) -> Vec<String> {
+    let mut created = vec![];
+    for p in paths {
+        if ascii_only && !p.is_ascii() {
+            continue;
+        }
+        if p.is_empty() || p.starts_with('/') || p.contains("//") || p.ends_with('/') {
+            continue;
+        }
+        let abs = env.path(p);
+        if abs.exists() {
+            continue;
+        }
+        // no parent component may be a file
+        let mut ok = true;
+        let mut cur = abs.parent();
+        while let Some(d) = cur {
+            if d == env.repo {
+                break;
+            }
+            if d.is_file() {
+                ok = false;
+                break;
+            }
+            cur = d.parent();
+        }
+        if !ok {
+            continue;
+        }
+        if let Some(d) = abs.parent() {
+            if std::fs::create_dir_all(d).is_err() {
+                continue;
+            }
+        }
+        if std::fs::write(&abs, format!("content of {}\n", p)).is_ok() {
+            created.push(p.clone());
+        }
+    }
+    created
+}
+
+// ---------------------------------------------------------------------------
+// `log show` / `log tail` output
+
+/// One header-introduced block: (stream, target, command) and the bytes after it.
+#[derive(Debug, Clone, Serialize, PartialEq, Eq, PartialOrd, Ord)]
+pub struct LogBlock {
+    pub stream: String,
+    pub target: String,
+    pub command: String,
+    pub bytes: Vec<u8>,
+}
+
+fn strip_ansi(s: &str) -> String {
+    let mut out = String::new();
+    let mut it = s.chars().peekable();
+    while let Some(c) = it.next() {
+        if c == '\x1b' && it.peek() == Some(&'[') {
+            it.next();
+            for d in it.by_ref() {
+                if d.is_ascii_alphabetic() {
+                    break;
+                }
+            }
+        } else {
+            out.push(c);
+        }
+    }
+    out
+}
+
+/// Parse a header line `[monorail | stdout.zst | target | command]`.
+pub fn parse_header(line: &[u8]) -> Option<(String, String, String)> {
+    let s = std::str::from_utf8(line).ok()?;
+    let s = strip_ansi(s.trim_end_matches('\n'));
+    let inner = s.strip_prefix("[monorail | ")?.strip_suffix(']')?;
+    let parts: Vec<&str> = inner.split(" | ").collect();
+    if parts.len() != 3 {
+        return None;
+    }
+    let stream = parts[0].strip_suffix(".zst").unwrap_or(parts[0]).to_string();
+    Some((stream, parts[1].to_string(), parts[2].to_string()))
+}
+
+/// Split output into header-introduced blocks. Bytes before the first header are
+/// returned separately.
+pub fn parse_blocks(data: &[u8]) -> (Vec<u8>, Vec<LogBlock>) {
+    let mut pre = vec![];
+    let mut blocks: Vec<LogBlock> = vec![];
+    let mut pos = 0;
+    while pos < data.len() {
+        let end = data[pos..].iter().position(|&b| b == b'\n').map(|i| pos + i + 1).unwrap_or(data.len());
+        let line = &data[pos..end];
+        if line.starts_with(b"[monorail | ") {
+            if let Some((stream, target, command)) = parse_header(line) {
+                blocks.push(LogBlock {
+                    stream,
+                    target,
+                    command,
+                    bytes: vec![],
+                });
+                pos = end;
+                continue;
+            }
+        }
+        match blocks.last_mut() {
+            Some(b) => b.bytes.extend_from_slice(line),
+            None => pre.extend_from_slice(line),
+        }
+        pos = end;
+    }
+    (pre, blocks)
 }
